@@ -294,6 +294,25 @@ def process_unit_locked(unit, tier, seed):
     if frontend_errors or vr.get("encountered-vir-error"):
         r.update(status="undecided", reason="front-end error: " + " | ".join(frontend_errors)[:1500])
         return r
+    # A function that has MORE loops or closures than on the tree the proofs were written on (contracts/shapes.json) contains a loop
+    # without invariant or a closure without contract. That the verifier cannot prove it is then no evidence of a violation (a
+    # behaviour-preserving rewrite into an iterator chain or a helper loop looks exactly like that): such failures make the unit
+    # undecided, the bounded layer decides. Fewer loops / closures, or the same number, are decided as usual.
+    try:
+        shapes = json.load(open(os.path.join(VERIF, "contracts", "shapes.json")))
+    except Exception:
+        shapes = {}
+    reshaped = set()
+    for f in om.functions:
+        rec = shapes.get(f["id"])
+        if f.get("mode") == "fn" and rec and f.get("n_loops") is not None and (f["n_loops"] > rec[0] or f["n_closures"] > rec[1]):
+            reshaped.add(f["id"])
+    hit = sorted(set(x["fn"] for x in r["failures"] if x.get("fn") in reshaped))
+    if hit:
+        r["failures"] = [x for x in r["failures"] if x.get("fn") not in reshaped]
+        if not r["failures"]:
+            r.update(status="undecided", reason="function reshaped (a new loop or closure without invariant / contract): " + ", ".join(hit))
+            return r
     if rlimit_hit or m["rc"] == -9:
         r.update(status="undecided", reason="resource limit: " + " | ".join(rlimit_hit)[:500])
         return r
